@@ -321,23 +321,33 @@ def call_passes_param(expr, p):
   return False
 
 
-def is_single_tuple_if(node, attr, p):
-  """if isinstance(p, tuple) and ...: self.attr = [p]  else: self.attr = p"""
+def single_tuple_if(node, attr, p):
+  """if isinstance(p, tuple) and <rest>: self.attr = [p]  else: self.attr = p
+  -> 'single_tuple_to_list' when <rest> is isinstance(p[0], int),
+     'single_pair_to_list'  when <rest> is len(p) == 2 and isinstance(p[1], six.string_types),
+     None otherwise."""
   if not isinstance(node, ast.If) or len(node.body) != 1 or len(node.orelse) != 1:
-    return False
+    return None
   t = node.test
   if not (isinstance(t, ast.BoolOp) and isinstance(t.op, ast.And) and t.values):
-    return False
+    return None
   first = t.values[0]
   if not (isinstance(first, ast.Call) and dotted(first.func) == "isinstance" and len(first.args) == 2
           and isinstance(first.args[0], ast.Name) and first.args[0].id == p
           and dotted(first.args[1]) == "tuple"):
-    return False
+    return None
   b, o = node.body[0], node.orelse[0]
   for st in (b, o):
     if not (isinstance(st, ast.Assign) and len(st.targets) == 1 and self_attr(st.targets[0]) == attr):
-      return False
-  return shape_name(b.value, p) == "[id]" and shape_name(o.value, p) == "id"
+      return None
+  if not (shape_name(b.value, p) == "[id]" and shape_name(o.value, p) == "id"):
+    return None
+  rest = [ast.unparse(v) for v in t.values[1:]]
+  if rest == ["isinstance(%s[0], int)" % p]:
+    return "single_tuple_to_list"
+  if rest == ["len(%s) == 2" % p, "isinstance(%s[1], six.string_types)" % p]:
+    return "single_pair_to_list"
+  return None
 
 
 def classify_param(where, p, params, init_fn, sites, rebinds):
@@ -386,9 +396,10 @@ def classify_param(where, p, params, init_fn, sites, rebinds):
           return ("Wrapped", attr, dotted(s.value.func), cond)
   # the single-tuple wrapper
   for st in init_fn.body:
-    if is_single_tuple_if(st, attr, p) and not rebound:
+    w = single_tuple_if(st, attr, p)
+    if w is not None and not rebound:
       if len([t for t in sites if t.attr == attr]) == 2:
-        return ("Wrapped", attr, "single_tuple_to_list", None)
+        return ("Wrapped", attr, w, None)
   # everything else: an (opaque) wrapper named after the shapes written
   kinds = sorted({s.kind for s in mine})
   label = ("list_of:" if kinds == ["append"] else "cases:") + "|".join(shape_name(s.value, p) for s in mine)
@@ -817,6 +828,24 @@ def extract(repo):
                           base=mode, deser=deser, passes=passes))
   if not classes:
     raise Uncovered("no class with get_config found")
+  # inputs of the seed-derived structures: attributes read by RTL._get_rtl_structure and by
+  # premade_lib.set_random_lattice_ensemble (optional: absent functions just drop the theorem)
+  structure_inputs = {}
+  for c in trees.get("rtl_layer", ast.Module(body=[], type_ignores=[])).body:
+    if isinstance(c, ast.ClassDef) and c.name == "RTL":
+      for n in c.body:
+        if isinstance(n, ast.FunctionDef) and n.name == "_get_rtl_structure":
+          reads = sorted({self_attr(x) for x in ast.walk(n) if self_attr(x) is not None})
+          structure_inputs["rtl_layer.RTL"] = reads
+  for n in trees.get("premade_lib", ast.Module(body=[], type_ignores=[])).body:
+    if isinstance(n, ast.FunctionDef) and n.name == "set_random_lattice_ensemble":
+      reads = sorted({x.attr for x in ast.walk(n) if isinstance(x, ast.Attribute)
+                      and isinstance(x.value, ast.Name) and x.value.id == "model_config"})
+      structure_inputs["configs.CalibratedLatticeEnsembleConfig"] = reads
+  for d in classes:
+    key = "%s.%s" % (d["module"], d["name"])
+    attrs = {st["attr"] for st in d["stores"]}
+    d["structure_inputs"] = [a for a in structure_inputs.get(key, []) if a in attrs]
   # Coq identifiers
   counts = {}
   for d in classes:
@@ -895,8 +924,8 @@ PER_CLASS = [
 # for a class with a parameter that is always stored but only conditionally reported
 PER_CLASS_GUARDED = PER_CLASS[:4] + [
     ("roundtrip_guarded", "roundtrip_guarded_for desc_%s", "apply roundtrip_guarded_generic; vm_compute; reflexivity"),
-    ("config_stable_guarded", "config_stable_guarded_for desc_%s",
-     "apply config_stable_guarded_generic; vm_compute; reflexivity"),
+    # what get_config hides it hides on both sides: the CONFIG is equal without any guard
+    ("config_stable", "config_stable_for desc_%s", "apply config_stable_unguarded_generic; vm_compute; reflexivity"),
 ]
 
 
@@ -950,6 +979,20 @@ def render_props(data):
       w("Proof. %s. Qed." % proof)
       w("Print Assumptions %s." % name)
     w("")
+  for d in data["classes"]:
+    if d.get("structure_inputs"):
+      nm = {"RTL": "C11_rtl_structure_deterministic",
+            "CalibratedLatticeEnsembleConfig": "C11_random_ensemble_deterministic"}.get(d["name"])
+      if nm is None:
+        continue
+      w("(* the constructor arguments from which the seed-derived structure of %s is computed" % d["name"])
+      w("   (attributes read by %s) are stored verbatim and survive the round trip; the structure is a" % (
+          "RTL._get_rtl_structure" if d["name"] == "RTL" else "premade_lib.set_random_lattice_ensemble"))
+      w("   function of them (C17 model), hence equal after rebuilding *)")
+      w("Theorem %s : attrs_survive desc_%s %s." % (nm, d["ident"], clist([cs(a) for a in d["structure_inputs"]])))
+      w("Proof. apply attrs_survive_generic; vm_compute; reflexivity. Qed.")
+      w("Print Assumptions %s." % nm)
+      w("")
   w("(* every layer, model and model-config class is registered under its own name in")
   w("   premade.get_custom_objects (needed by keras.models.load_model) *)")
   w("Theorem C11_registry_covers_layers : registry_covers_layers custom_objects all_classes.")
@@ -969,8 +1012,10 @@ def render_props(data):
     w("Theorem C11_no_dropped_params_refuted :")
     w("  exists d p, In d all_classes /\\ In p (param_names d) /\\ In p (c_dropped d) /\\ ~ In p (emit_keys d).")
     w("Proof.")
-    w("  exists desc_%s, %s. split; [vm_compute; tauto|]. split; [vm_compute; tauto|]. split; [vm_compute; tauto|]." % (
-        d["ident"], cs(p)))
+    idx = [x["ident"] for x in data["classes"]].index(d["ident"])
+    w("  exists desc_%s, %s. split." % (d["ident"], cs(p)))
+    w("  { unfold all_classes.%s apply in_eq. }" % (" do %d apply in_cons." % idx if idx else ""))
+    w("  split; [apply mem_In; vm_compute; reflexivity|]. split; [apply mem_In; vm_compute; reflexivity|].")
     w("  apply mem_false_not_In. vm_compute. reflexivity.")
     w("Qed.")
     w("Print Assumptions C11_no_dropped_params_refuted.")
